@@ -232,9 +232,9 @@ def exPrior : List Val :=
    .slice [], .map none, .slice [], .ptr (some (.int 42)), .str [107, 101, 112, 116]]
 
 theorem ex_wf : exS.wf := by
-  simp [exS, exFs, exT, Ty.wf, fieldsWf, validWidth, Ty.wt, Ty.isMap]
+  simp [exS, exFs, exT, Ty.wf, fieldsWf, validWidth, Ty.wt, Ty.isMap, Ty.isProtoSlice]
 theorem ex_wf' : exS'.wf := by
-  simp [exS', exFs', exT', Ty.wf, fieldsWf, validWidth, Ty.wt, Ty.isMap]
+  simp [exS', exFs', exT', Ty.wf, fieldsWf, validWidth, Ty.wt, Ty.isMap, Ty.isProtoSlice]
 theorem ex_ev : exS.Evolves exS' := by
   simp [exS, exS', exFs, exFs', exT, exT', Ty.Evolves, fieldEvolves]
 theorem ex_shape : Ty.rtShape false exS := by
@@ -273,8 +273,8 @@ def exTopPrior : List Val := [.str [1], .slice [.str [112]], .int 7]
 example : unmarshal (.struct "S2" exTopFs') (marshal (.struct "S" exTopFs) (.struct exTopVals)) (.struct exTopPrior)
     = .ok (.struct (projectTop exTopFs exTopFs' exTopVals exTopPrior)) :=
   decode_evolved_toplevel "S" "S2" exTopFs exTopFs' exTopVals exTopPrior
-    (by simp [exTopFs, exFs, Ty.wf, fieldsWf, validWidth, Ty.wt, Ty.isMap])
-    (by simp [exTopFs', Ty.wf, fieldsWf, validWidth, Ty.wt, Ty.isMap])
+    (by simp [exTopFs, exFs, Ty.wf, fieldsWf, validWidth, Ty.wt, Ty.isMap, Ty.isProtoSlice])
+    (by simp [exTopFs', Ty.wf, fieldsWf, validWidth, Ty.wt, Ty.isMap, Ty.isProtoSlice])
     (by simp [exTopFs, exTopFs', exFs])
     (by simp [exTopFs, exFs, Ty.rtShape, fieldsRtShape, Ty.keySafe])
     (by simp [exTopFs, exTopVals, exFs, exVals, Ty.hasTy, fieldsHaveTy, intRange, keysDistinct])
@@ -300,7 +300,7 @@ example (rest : Bytes) (fuel : Nat)
           (0 + ((Ty.map (.str false) (.int 64) false).app (.map (some [(.str [97], .int 3)])) (appendTag .slice 8)).length)
           [.uint 5] :=
   skip_unknown_exact (.map (.str false) (.int 64) false) (.map (some [(.str [97], .int 3)])) 8 (by omega)
-    (by simp [Ty.wf, validWidth, Ty.isMap]) (by simp [Ty.hasTy, intRange, keysDistinct]) rfl rfl
+    (by simp [Ty.wf, validWidth, Ty.isMap, Ty.isProtoSlice]) (by simp [Ty.hasTy, intRange, keysDistinct]) rfl rfl
     (by decide +kernel) [(15, "Last", .uint 16)] [.uint 5] (by simp) rfl fuel rest 0 hf
 
 end C03
